@@ -11,6 +11,10 @@ type Tag struct { //nolint:govet
 	Name              TagName
 	Title             string
 	Description       *string
+
+	// automatic is set for a tag made from the path of a method that has no Tags;
+	// such a tag is not declared by a TAG directive and cannot be referred to.
+	automatic bool
 }
 
 var _ json.Marshaler = &Tags{}
@@ -31,6 +35,7 @@ func newPathTag(r InteractionID) *Tag {
 		Children:          &Tags{},
 		Title:             title,
 		Name:              tagName(title),
+		automatic:         true,
 	}
 }
 
